@@ -209,7 +209,7 @@ func (vc *VC) intBinop(st *State, op token.Token, x, y *Term, rt types.Type, pos
 			return res("(band8 " + x.S + " " + y.S + ")")
 		}
 		vc.note("bitwise & of two variables abstracted in int mode")
-		r := res("(band " + x.S + " " + y.S + ")")
+		r := res("(bandS " + x.S + " " + y.S + ")")
 		vc.assume(vc.inRange(r.S, rt))
 		if !signed {
 			vc.assume("(and (<= " + r.S + " " + x.S + ") (<= " + r.S + " " + y.S + "))")
@@ -228,7 +228,7 @@ func (vc *VC) intBinop(st *State, op token.Token, x, y *Term, rt types.Type, pos
 			return res("(bor8 " + x.S + " " + y.S + ")")
 		}
 		vc.note("bitwise | abstracted in int mode")
-		r := res("(bor " + x.S + " " + y.S + ")")
+		r := res("(borS " + x.S + " " + y.S + ")")
 		vc.assume(vc.inRange(r.S, rt))
 		if !signed {
 			vc.assume("(and (>= " + r.S + " " + x.S + ") (>= " + r.S + " " + y.S + ") (<= " + r.S + " (+ " + x.S + " " + y.S + ")))")
@@ -242,7 +242,7 @@ func (vc *VC) intBinop(st *State, op token.Token, x, y *Term, rt types.Type, pos
 			return res("(bxor8 " + x.S + " " + y.S + ")")
 		}
 		vc.note("bitwise ^ abstracted in int mode")
-		r := res("(bxor " + x.S + " " + y.S + ")")
+		r := res("(bxorS " + x.S + " " + y.S + ")")
 		vc.assume(vc.inRange(r.S, rt))
 		return r
 	}
